@@ -1,7 +1,7 @@
 #!/bin/bash
 # usage: try_mutant.sh <diff> <PROPERTY> [check args...]
 # applies the diff to /repo, runs the check, reverts /repo (always).
-diff=$1; prop=$2; shift 2
+diff=$(realpath "$1"); prop=$2; shift 2
 cd /repo || exit 2
 if ! git diff --quiet; then echo "repo not clean"; exit 2; fi
 git apply "$diff" || { echo "patch does not apply"; exit 2; }
